@@ -9,6 +9,7 @@ import kernel          # noqa: E402
 import clones          # noqa: E402
 import cgen            # noqa: E402
 import rearraze        # noqa: E402
+import rearstatic      # noqa: E402
 
 LEVEL = "proof"
 
@@ -199,11 +200,18 @@ def run(ctx):
         "variables (implementation-only bisimulation statement). (b) real newMootTag/newAuxTag vs new_tag_str. "
         "(c) rear/raze programs (rear into other frames, run, raze all|first|last, rear again into the same or another "
         "frame; raze while running): snapshots of Framer.Names and every Frame.auxes after each Rearer/Razer action vs "
-        "the Coq registry model; implementation-only statements S1-S4 of rearraze.py. Non-trivial = >= 2 clone "
-        "instances with > 4 clone events (a), >= 2 rears and a raze (c)")
+        "the Coq registry model; implementation-only statements S1-S4 of rearraze.py. (d) directed family "
+        "(props/C12/rearstatic.py, implementation only, run first): moot `worker` with k=1..3 static insular clones "
+        "(`aux kid as mine`, optionally holding `aux grand as mine` and a raze of their own) in frame W1 and `raze "
+        "all|first|last [in frame W1]` in W0 / W1 / W2, instantiated by `rear` and by `aux worker as mine` side by side "
+        "(optionally razed by the main framer afterwards): after every raze every clone not put in place by "
+        "Rearer.action and not nested in a removed reared clone is still in its frame's .auxes and in Framer.Names; "
+        "the reared clone's Frame.enter trace (stamp, relative name, frame) and marker shares equal the build-time "
+        "clone's. Non-trivial = >= 2 clone "
+        "instances with > 4 clone events (a), >= 2 rears and a raze (c), the build-time clone reaches its last frame (d)")
     ctx.assumptions = [
         "harness doubles in the check process only: Printer.action recorder (reads actor._act.frame.framer), runner "
-        "proxies, store.changeStamp wrapper, wrappers around Rearer.action / Razer.action taking registry snapshots",
+        "proxies, store.changeStamp wrapper, wrappers around Rearer.action / Razer.action taking registry snapshots; in (d) a Frame.enter wrapper",
         "relative shares are initialised to 0 by house-level `init` lines on their PREDICTED absolute paths "
         "(.framer.<surname_tag>.rv<k>, ...): a wrong prediction shows up as a value mismatch",
         "clone programs stay inside the kernel language (no conditional clone aux -- rejected by the builder --, no "
@@ -216,12 +224,19 @@ def run(ctx):
     ctx.coq_build("C12/Props.v")
     t1 = time.time()
     failures = []
+    # directed family, runs first in both tiers (implementation only): a reared moot holding static insular clones
+    # and a raze, side by side with a build-time clone of the same moot (props/C12/rearstatic.py)
+    f = rearstatic.check_reared_static(ctx)
+    if f:
+        failures.append(f)
+    t1b = time.time()
     static_part(ctx, failures)
     t2 = time.time()
     tag_part(ctx, failures)
     t3 = time.time()
     rear_part(ctx, failures)
-    ctx.extra["phase_seconds"] = {"coq_build": round(t1 - t0, 1), "static": round(t2 - t1, 1), "tags": round(t3 - t2, 1),
+    ctx.extra["phase_seconds"] = {"coq_build": round(t1 - t0, 1), "rear_static": round(t1b - t1, 1),
+                                  "static": round(t2 - t1b, 1), "tags": round(t3 - t2, 1),
                                   "rear": round(time.time() - t3, 1)}
     seen = set()
     for f in failures:
